@@ -83,7 +83,7 @@ def gen_prog_tl(seed, tier):
         half = c["period"] // 2
         ph = c["phase"] if c["phase"] is not None else half
         rst_proc = {"dom": d["name"], "at": ph + fl.randint(1, 8) * half}
-    return {"kind": "prog_tl", "rst_proc": rst_proc, "prog": prog, "clocks": clocks, "steps": steps, "orders": orders,
+    return {"kind": "prog_tl", "rst_proc": rst_proc, "refused_clock": fl.choice([0, 0, 6, 10]), "prog": prog, "clocks": clocks, "steps": steps, "orders": orders,
             "add_order": fl.choice([0, fl.randrange(1, 1 << 30)])}
 
 
@@ -656,14 +656,31 @@ def run_prog_tl(case):
             cds = {d["name"]: ClockDomain(d["name"], clk_edge=d["edge"], async_reset=d["async_reset"], reset_less=d["reset_less"])
                    for d in doms}
 
+            from amaranth.hdl import Signal, ClockSignal, DriverConflict
+            cnt_g = Signal(4, name="cnt_g")
+            first = doms[0]["name"]
+
             class Top(Elaboratable):
                 def elaborate(self, platform):
                     m = Module()
                     for cd in cds.values():
                         m.domains += cd
                     m.submodules.dut = B.top
+                    # a domain whose clock is driven by logic (a copy of the first domain's clock): the simulator must refuse
+                    # to add a clock to it, and the refusal must leave nothing behind
+                    m.domains.g = ClockDomain("g", reset_less=True)
+                    m.d.comb += ClockSignal("g").eq(ClockSignal(first))
+                    m.d.g += cnt_g.eq(cnt_g + 1)
                     return m
             sim = Simulator(Top())
+            if case.get("refused_clock"):
+                try:
+                    sim.add_clock(Period(fs=case["refused_clock"]), domain="g")
+                except DriverConflict:
+                    P["add_clock_refused"] = P.get("add_clock_refused", 0) + 1
+                else:
+                    raise Violation("comb_driven_clock_accepted", -1, {})
+            g_count = [0]
             import random as _random
             dl = list(doms)
             if case.get("add_order"):
@@ -693,6 +710,10 @@ def run_prog_tl(case):
                 for (fid, name), sg in B.ongoing.items():
                     if ctx.get(sg) != int(ref.fsm_state[fid] == name):
                         raise Violation("observed_values", idx, {"order": order, "fsm": fid, "state": name, "t_fs": t})
+                if ctx.get(cnt_g) != (g_count[0] & 15):
+                    raise Violation("observed_values", idx, {"order": order, "signal": "cnt_g (register clocked by a logic-driven "
+                                                             "copy of the first clock)", "got": ctx.get(cnt_g),
+                                                             "expected": g_count[0] & 15, "t_fs": t})
 
             async def tb(ctx):
                 now = 0
@@ -721,6 +742,8 @@ def run_prog_tl(case):
                             P["coincident_domains"] += 1
                             F["tie"] += 1
                         stats["edges"] += len(tog)
+                        if tog.get(first) == 1:
+                            g_count[0] += 1
                         rch = {}
                         if rp and now == rp["at"] and not ref.rst[rp["dom"]]:
                             rch[rp["dom"]] = 1
